@@ -32,7 +32,8 @@ RULE = ("generated type definitions (1-4 declared fields, serializers from a poo
         "non-idempotent serializer or >=1 failing one; distinct by (message kind, serializer kinds, declaration kinds, failing set, missing field). "
         "Fields are declared by Field(key, serializer), a Field subclass overriding serialize(), Field.for_types, the fields() factory or Field.for_value. Extra parts: a serializer that "
         "logs a message of its own type (re-entrancy), and 2-3 threads logging one type under the line-granular scheduler (LINE events on "
-        "eliot/_validation.py and eliot/_output.py, all one-preemption schedules + sampled): every delivered message holds its own values. In 30% of the cases "
+        "eliot/_validation.py and eliot/_output.py, all one-preemption schedules + sampled): every delivered message holds its own values (a third of the thread cases: every serializer fails, one traceback + one "
+        "serialization_failure per call). Typed child actions / messages failing inside an action bound to another logger object report to the destinations. In 30% of the cases "
         "the failing serializers raise one stored exception object again and again")
 ASSUMPTIONS = ["Logger.write with an explicit serializer uses MessageType._serializer (the object the library itself passes)",
                "serializers raise Exception subclasses"]
